@@ -318,6 +318,8 @@ def select_cases(cases: list[dict[str, Any]], tier: str, seed: int) -> tuple[lis
     # how the database fails to open: the directory cannot be created / the file is not a database / the file
     # was written by another schema version (the last two fail AFTER the sqlite connection object exists)
     for cs in a + b:
+        if cs["c"]["how"] == "Unexpected" and cs["id"] % 2:
+            cs["flavour"] = "chained"   # RuntimeError raised while handling / chained to a ConnectionError
         if cs["c"]["how"] == "DbFails" and cs["c"]["point"] == "DbOpen":
             cs["dbfail"] = ("blocked", "not-sqlite", "other-version")[cs["id"] % 3]
     if tier == "thorough":
